@@ -175,6 +175,14 @@ func (x *Exec) execInvoke(p *Path, c *ssa.CallCommon, recv SV, args []SV, res ss
 		x.errorf("%s: no contract for %s (invoked at %s)", x.cur.ct.Func, key, x.pos(in))
 		return false
 	}
+	for fl := range ct.Flags {
+		if strings.HasPrefix(fl, "implements=") && len(ct.Ensures) == 0 {
+			// an implementation that only restates the interface-level contract
+			if ic := x.cf.ByFunc[fl[len("implements="):]]; ic != nil {
+				ct = ic
+			}
+		}
+	}
 	// parameter names: from the implementing function if available
 	names := x.paramNames(key, sig)
 	for i, a := range args {
@@ -360,6 +368,7 @@ func (x *Exec) applyContract(p *Path, ct *Contract, vars map[string]SV, results 
 		for _, ax := range frameAxioms(&cfs, pre, post) {
 			p.assume(ax)
 		}
+		p.assume(freshOwn(pre, post))
 		p.assume(fmt.Sprintf("(= (TrLen %s) (TrLen %s))", post, pre))
 		p.assume(fmt.Sprintf("(= (TrA %s) (TrA %s))", post, pre))
 		p.assume(fmt.Sprintf("(= (TrB %s) (TrB %s))", post, pre))
@@ -386,6 +395,14 @@ func (x *Exec) applyContract(p *Path, ct *Contract, vars map[string]SV, results 
 		} else {
 			result = SV{K: KTuple, Tup: rs}
 		}
+	}
+	for _, lt := range ct.PLets {
+		sv, err := eenv.evalSV(lt.E)
+		if err != nil {
+			x.errorf("%s: %s plet %s: %v", x.cur.ct.Func, site, lt.Name, err)
+			return SV{}, false
+		}
+		eenv = eenv.with(lt.Name, sv)
 	}
 	for _, en := range ct.Ensures {
 		s, err := eenv.evalBool(en.E)
@@ -508,6 +525,7 @@ func (x *Exec) execAppend(p *Path, s, t SV, res ssa.Value, in ssa.Instruction) b
 	newLen := x.fresh("alen")
 	p.declare(newLen, "Int")
 	p.assume(fmt.Sprintf("(= %s (+ %s %s))", newLen, s.Len, t.Len))
+	p.assume(fmt.Sprintf("(<= %s MAXINT)", newLen))
 	// reallocating branch
 	q := p.clone()
 	fits := fmt.Sprintf("(<= %s %s)", newLen, s.Cap)
@@ -519,10 +537,15 @@ func (x *Exec) execAppend(p *Path, s, t SV, res ssa.Value, in ssa.Instruction) b
 	x.bind(p, res, SV{K: KSlice, Arr: s.Arr, Off: s.Off, Len: newLen, Cap: s.Cap, Elem: s.Elem})
 	p.desc = append(p.desc, "app-inplace")
 	// realloc: fresh array holding s ++ t
-	a := x.alloc(q, "KARR", 1)
+	ak := "KNARR"
+	if isNamed(s.Elem, "field") {
+		ak = "KARR"
+	}
+	a := x.alloc(q, ak, 1)
 	nc := x.fresh("acap")
 	q.declare(nc, "Int")
-	q.assume(fmt.Sprintf("(>= %s %s)", nc, newLen))
+	q.assume(fmt.Sprintf("(and (>= %s %s) (<= %s MAXINT))", nc, newLen, nc))
+	x.assumptions["memory is not exhausted: slice lengths stay within int"] = true
 	na := x.fresh("A")
 	q.declare(na, "(Array Int Val)")
 	q.assume(fmt.Sprintf("(forall ((j Int)) (! (=> (and (<= 0 j) (< j %s)) (= (select %s j) (select (select (Mem %s) %s) (+ %s j)))) :pattern ((select %s j))))",
